@@ -807,7 +807,7 @@ Proof.
   - intros x O W d s H. cbn [lower_expr]. destruct (memN x (names s)); [split; [exact H|reflexivity]|].
     split; [apply emit_inv; exact H|reflexivity].
   - intros em args IH O W d s H. cbn [lower_expr].
-    destruct (IH _ _ _ _ H) as [H1 L1]. destruct em; [|split; assumption].
+    destruct (IH _ _ _ _ H) as [H1 L1]. destruct (emits_of em); [|split; assumption].
     split; [apply emit_inv; exact H1|lp; exact L1].
   - intros a l IHl r IHr. apply tcase_EShort; assumption.
   - intros c IHc t IHt e IHe. apply tcase_EIfE; assumption.
